@@ -49,9 +49,14 @@
 (*    part of the record (the driver's projection drops them);             *)
 (*  - an entirely empty row is a data row (record {}), but the last row    *)
 (*    of a sheet is not entirely empty (xlsx cannot represent that);       *)
-(*  - vib_outcar and atoms need files and are outside the quantifier.      *)
+(*  - atoms cells name a molecule of ase.build.molecule or a structure     *)
+(*    file <formula>.xyz (the Atoms object is judged by its formula);      *)
+(*    vib_outcar cells name an OUTCAR file whose modes the driver wrote    *)
+(*    (opt.files); a cell without header is dropped (the code warns);      *)
+(*    booleans are judged up to Python equality (True == 1).               *)
 (***************************************************************************)
 EXTENDS Text, ExcelTokens, FiniteSets, TLC
+D == INSTANCE Dec
 
 \* ------------------------------------------------------------------ text helpers
 RECURSIVE SplitOn(_, _)
@@ -61,6 +66,14 @@ SplitOn(s, d) ==                                   \* python  s.split(d)
         IN <<SubSeq(s, 1, i - 1)>> \o SplitOn(SubSeq(s, i + 1, Len(s)), d)
    ELSE <<s>>
 Pieces(t) == SplitOn(t, T_dot)
+\* python str.strip(): the characters for which str.isspace() holds
+IsSpaceC(ch) == \/ ch \in 9..13 \/ ch \in 28..32 \/ ch \in {133, 160, 5760, 8232, 8233, 8239, 8287, 12288}
+                \/ ch \in 8192..8202
+RECURSIVE LStrip(_)
+LStrip(s) == IF Len(s) > 0 /\ IsSpaceC(s[1]) THEN LStrip(Tail(s)) ELSE s
+RECURSIVE RStrip(_)
+RStrip(s) == IF Len(s) > 0 /\ IsSpaceC(s[Len(s)]) THEN RStrip(SubSeq(s, 1, Len(s) - 1)) ELSE s
+Strip(s) == LStrip(RStrip(s))
 LowerC(ch) == IF IsUpperC(ch) THEN ch + 32 ELSE ch
 Lower(s) == [i \in 1..Len(s) |-> LowerC(s[i])]
 RECURSIVE NatDigits(_)
@@ -90,8 +103,14 @@ ListV(s) == [t |-> "l", v |-> s]
 DictV(ps) == [t |-> "d", v |-> ps]
 VecV(s) == [t |-> "v", v |-> s]
 ClsV(q) == [t |-> "c", v |-> q]
+AtomsV(f) == [t |-> "a", v |-> f]                 \* an ase.Atoms object, by chemical formula
 ZeroN == Num(<<0, 0>>)
-Scalar(cell) == IF cell.t = "s" THEN Str(Trim(cell.v)) ELSE cell
+\* cells: "e" empty, "n" number, "s" text, "b" boolean <<0>> / <<1>>, "t" date-time <<Y,M,D,h,m,s>>.
+\* A boolean is judged up to Python equality (True == 1): pandas delivers a boolean column that
+\* has empty cells as 1.0 / 0.0.
+Scalar(cell) == IF cell.t = "s" THEN Str(Strip(cell.v))
+                ELSE IF cell.t = "b" THEN Num(DecOfInt(cell.v[1]))
+                ELSE cell
 IsEmpty(cell) == cell.t = "e"
 
 \* records and dictionaries: sets of <<key, value>>
@@ -143,12 +162,17 @@ HasToken(t) == \E k \in SpecialTokens : Occurs(t, k)
 \* keys that special columns write into the record
 ReservedKeys == {T_elements, T_vib_wavenumbers, T_rot_temperatures, T_a_low, T_a_high, T_model}
                 \cup ModeKeys
-NamePart(x) == Len(x) > 0 /\ ~HasToken(x) /\ x = Trim(x)
+NamePart(x) == Len(x) > 0 /\ ~HasToken(x) /\ x = Strip(x)
 
 \* the documented forms: which rules apply to a trimmed header text
-Rules(t) ==
-   LET p == Pieces(t) IN
-      (IF Len(p) = 2 /\ p[1] \in {T_element, T_elements} /\ NamePart(p[2]) THEN {"element"} ELSE {})
+\* (dl: the `delimiter` argument of read_excel; the code honours it for element headers only -
+\* set_element documents it - every other special header is dotted whatever the delimiter)
+RulesD(t, dl) ==
+   LET p == Pieces(t)  pe == SplitOn(t, dl) IN
+      (IF Len(pe) = 2 /\ pe[1] \in {T_element, T_elements} /\ NamePart(pe[2]) THEN {"element"} ELSE {})
+ \cup (IF t = <<>> THEN {"unnamed"} ELSE {})           \* data under an empty header: warned about, dropped
+ \cup (IF t = T_atoms THEN {"atoms"} ELSE {})
+ \cup (IF t = T_vib_outcar THEN {"outcar"} ELSE {})
  \cup (IF t = T_formula THEN {"formula"} ELSE {})
  \cup (IF t = T_statmech_model THEN {"statmech"} ELSE {})
  \cup (IF t \in ModeKeys THEN {"mode"} ELSE {})
@@ -163,9 +187,13 @@ Rules(t) ==
  \cup (IF Len(p) = 3 /\ p[1] = T_dict /\ NamePart(p[2]) /\ NamePart(p[3]) THEN {"dict"} ELSE {})
  \cup (IF Len(t) > 0 /\ ~HasToken(t) THEN {"ordinary"} ELSE {})
 
-DocClass(t) ==
-   LET p == Pieces(t)  r == Rules(t) IN
-   IF r = {"element"} THEN HC("element", p[2], <<>>)
+Rules(t) == RulesD(t, T_dot)
+DocClassD(t, dl) ==
+   LET p == Pieces(t)  r == RulesD(t, dl) IN
+   IF r = {"element"} THEN HC("element", SplitOn(t, dl)[2], <<>>)
+   ELSE IF r = {"unnamed"} THEN HC("unnamed", <<>>, <<>>)
+   ELSE IF r = {"atoms"} THEN HC("atoms", <<>>, <<>>)
+   ELSE IF r = {"outcar"} THEN HC("outcar", <<>>, <<>>)
    ELSE IF r = {"formula"} THEN HC("formula", <<>>, <<>>)
    ELSE IF r = {"statmech"} THEN HC("statmech", <<>>, <<>>)
    ELSE IF r = {"mode"} THEN HC("mode", t, <<>>)
@@ -177,13 +205,14 @@ DocClass(t) ==
    ELSE IF r = {"dict"} THEN HC("dict", p[2], p[3])
    ELSE IF r = {"ordinary"} THEN HC("ordinary", t, <<>>)
    ELSE HC("outside", t, <<>>)            \* no documented form, or more than one
+DocClass(t) == DocClassD(t, T_dot)
 
 \* the implementation's chain of substring tests (pmutt/io/excel.py l.107-186), applied to
 \* the stripped column name pandas delivers
-ImplClass(t) ==
-   LET p == Pieces(t)  last == p[Len(p)] IN
+ImplClassD(t, dl) ==
+   LET p == Pieces(t)  last == p[Len(p)]  pe == SplitOn(t, dl) IN
    IF Occurs(t, T_Unnamed) THEN HC("unnamed", <<>>, <<>>)
-   ELSE IF Occurs(t, T_element) THEN HC("element", last, <<>>)
+   ELSE IF Occurs(t, T_element) THEN HC("element", pe[Len(pe)], <<>>)
    ELSE IF Occurs(t, T_formula) THEN HC("formula", <<>>, <<>>)
    ELSE IF Occurs(t, T_atoms) THEN HC("atoms", <<>>, <<>>)
    ELSE IF Occurs(t, T_statmech_model) THEN HC("statmech", <<>>, <<>>)
@@ -207,12 +236,33 @@ ImplClass(t) ==
         LET q == Pieces(RemoveAll(t, DictDot))
         IN IF Len(q) = 2 THEN HC("dict", q[1], q[2]) ELSE HC("raise", t, <<>>)
    ELSE HC("ordinary", t, <<>>)
+ImplClass(t) == ImplClassD(t, T_dot)
 
 \* pandas renames the k-th repetition (k >= 1) of a header text to  text.k
+\* and names a column without header  "Unnamed: <0-based position>"
 PandasName(hs, c) == LET k == Cardinality({d \in 1..(c - 1) : hs[d] = hs[c]})
-                     IN IF k = 0 THEN hs[c] ELSE hs[c] \o <<T_dot>> \o NatDigits(k)
-DocClasses(hs) == [c \in 1..Len(hs) |-> DocClass(Trim(hs[c]))]
-ImplClasses(hs) == [c \in 1..Len(hs) |-> ImplClass(Trim(PandasName(hs, c)))]
+                     IN IF hs[c] = <<>> THEN T_Unnamed \o <<58, 32>> \o NatDigits(c - 1)
+                        ELSE IF k = 0 THEN hs[c] ELSE hs[c] \o <<T_dot>> \o NatDigits(k)
+DocClassesD(hs, dl) == [c \in 1..Len(hs) |-> DocClassD(Strip(hs[c]), dl)]
+ImplClassesD(hs, dl) == [c \in 1..Len(hs) |-> ImplClassD(Strip(PandasName(hs, c)), dl)]
+DocClasses(hs) == DocClassesD(hs, T_dot)
+ImplClasses(hs) == ImplClassesD(hs, T_dot)
+
+\* ------------------------------------------------------------------ options and files
+\* opt.delim: read_excel(delimiter=); opt.cutoff / opt.imag: min_frequency_cutoff / include_imaginary
+\* (documented to apply to vib_outcar only); opt.files: the OUTCAR files the sheet names, as a set of
+\* <<stripped cell text, modes>>, a mode being [k |-> "f" (real) | "i" (imaginary), w |-> Dec >= 0]
+DefaultOpt == [delim |-> T_dot, cutoff |-> <<0, 0>>, imag |-> FALSE, files |-> {}]
+OutcarList(opt, name) ==
+   LET ms == Get(opt.files, name)
+       keep == {j \in 1..Len(ms) : IF ms[j].k = "f" THEN D!Lt(opt.cutoff, ms[j].w) ELSE opt.imag}
+       ss == SortedSeq(keep)
+   IN [i \in 1..Len(ss) |-> IF ms[ss[i]].k = "f" THEN Num(ms[ss[i]].w)
+                                                  ELSE Num(IF ms[ss[i]].w[1] = 0 THEN <<0, 0>> ELSE D!Neg(ms[ss[i]].w))]
+\* atoms cell: a molecule name of ase.build.molecule, or the path of a structure file
+\* <dir>/<formula>.xyz (absolute, or relative to the spreadsheet); the record holds the Atoms object
+AtomsStem(s) == LET i == LastIndexOf(s, 47)  b == SubSeq(s, i + 1, Len(s))  n == Len(b)
+                IN IF n > 4 /\ SubSeq(b, n - 3, n) = <<46, 120, 121, 122>> THEN SubSeq(b, 1, n - 4) ELSE b
 
 \* ------------------------------------------------------------------ models and presets
 StatMechCls == ClsV(Q_StatMech)
@@ -248,7 +298,7 @@ Preset(name) ==
    ELSE {}
 
 \* ------------------------------------------------------------------ the required result
-ExpectedRow(cl, row) ==
+ExpectedRowO(cl, row, opt) ==
    LET n == Len(cl)
        ne == {c \in 1..n : ~IsEmpty(row[c])}
        Of(k) == {c \in ne : cl[c].cls = k}
@@ -258,13 +308,20 @@ ExpectedRow(cl, row) ==
        \* composition (set_formula: "will assign to output_structure['elements']", so element
        \* cells to its left are replaced), an element.X cell to its right is set on top of it
        fcol == IF Of("formula") = {} THEN 0 ELSE CHOOSE c \in Of("formula") : TRUE
-       base == IF fcol = 0 THEN {} ELSE FormulaPairs(Trim(row[fcol].v))
+       base == IF fcol = 0 THEN {} ELSE FormulaPairs(Strip(row[fcol].v))
        ecols == {c \in Of("element") : c > fcol}
        elem == IF Of("element") \cup Of("formula") = {} THEN {}
                ELSE {<<T_elements,
                        DictV({p \in base : ~\E c \in ecols : cl[c].a = p[1]}
                              \cup {<<cl[c].a, Scalar(row[c])>> : c \in ecols})>>}
-       vib == IF Of("vib") = {} THEN {} ELSE {<<T_vib_wavenumbers, ListV(Vals(Of("vib")))>>}
+       \* a vib_outcar cell sets the whole list from the file (modes in file order: real ones above
+       \* the cutoff, imaginary ones negated and only when asked for); vib_wavenumber cells of
+       \* that row are then not used, on whichever side of the vib_outcar column they stand
+       vib == IF Of("outcar") # {}
+              THEN {<<T_vib_wavenumbers,
+                      ListV(OutcarList(opt, Strip(row[CHOOSE c \in Of("outcar") : TRUE].v)))>>}
+              ELSE IF Of("vib") = {} THEN {} ELSE {<<T_vib_wavenumbers, ListV(Vals(Of("vib")))>>}
+       atoms == {<<T_atoms, AtomsV(AtomsStem(Strip(row[c].v)))>> : c \in Of("atoms")}
        rot == IF Of("rot") = {} THEN {} ELSE {<<T_rot_temperatures, ListV(Vals(Of("rot")))>>}
        lists == {<<nm, ListV(Vals({c \in Of("list") : cl[c].a = nm}))>> :
                     nm \in {cl[c].a : c \in Of("list")}}
@@ -275,57 +332,72 @@ ExpectedRow(cl, row) ==
                          THEN Scalar(row[CHOOSE c \in Of(k) : cl[c].b[1] = i - 1]) ELSE ZeroN])
        alow == IF Of("alow") = {} THEN {} ELSE {<<T_a_low, Vec("alow")>>}
        ahigh == IF Of("ahigh") = {} THEN {} ELSE {<<T_a_high, Vec("ahigh")>>}
-       modes == {<<cl[c].a, ModelClass(cl[c].a, Trim(row[c].v))>> : c \in Of("mode")}
+       modes == {<<cl[c].a, ModelClass(cl[c].a, Strip(row[c].v))>> : c \in Of("mode")}
        model == IF Of("mode") \cup Of("statmech") = {} THEN {} ELSE {<<T_model, StatMechCls>>}
-       explicit == ord \cup elem \cup vib \cup rot \cup lists \cup dicts \cup alow \cup ahigh
+       explicit == ord \cup elem \cup atoms \cup vib \cup rot \cup lists \cup dicts \cup alow \cup ahigh
                    \cup modes \cup model
-       preset == UNION {{p \in Preset(Lower(Trim(row[c].v))) : ~Has(explicit, p[1])} : c \in Of("statmech")}
+       preset == UNION {{p \in Preset(Lower(Strip(row[c].v))) : ~Has(explicit, p[1])} : c \in Of("statmech")}
    IN explicit \cup preset
-Expected(sheet) == LET cl == DocClasses(sheet.headers)
-                   IN [r \in 1..Len(sheet.rows) |-> ExpectedRow(cl, sheet.rows[r])]
+ExpectedRow(cl, row) == ExpectedRowO(cl, row, DefaultOpt)
+Expected(sheet) == LET cl == DocClassesD(sheet.headers, sheet.opt.delim)
+                   IN [r \in 1..Len(sheet.rows) |-> ExpectedRowO(cl, sheet.rows[r], sheet.opt)]
 
 \* ------------------------------------------------------------------ the quantifier
-CellSuits(cls, cell) ==
+MoleculeNames == {F_H2O, F_CO, V_CO2, V_C2H2, V_CH4, V_H2, V_N2, V_O2, V_C2H6}    \* Hill formula = name
+CellSuits(cls, cell, opt) ==
    \/ IsEmpty(cell)
+   \/ cls.cls = "unnamed"
+   \/ /\ cls.cls = "atoms" /\ cell.t = "s" /\ AtomsStem(Strip(cell.v)) \in MoleculeNames
+   \/ /\ cls.cls = "outcar" /\ cell.t = "s" /\ Has(opt.files, Strip(cell.v))
+   \/ /\ cls.cls \in {"ordinary", "list", "dict"} /\ cell.t \in {"b", "t"}
    \/ /\ cls.cls \in {"element", "vib", "rot", "alow", "ahigh"} /\ cell.t = "n"
    \/ /\ cls.cls \in {"ordinary", "list", "dict"}
-      /\ (cell.t = "s" => Len(Trim(cell.v)) > 0)
-   \/ /\ cls.cls = "formula" /\ cell.t = "s" /\ FormulaWF(Trim(cell.v))
-   \/ /\ cls.cls = "statmech" /\ cell.t = "s" /\ Lower(Trim(cell.v)) \in PresetNames
-   \/ /\ cls.cls = "mode" /\ cell.t = "s" /\ ModelKnown(cls.a, Trim(cell.v))
+      /\ cell.t \in {"n", "s"} /\ (cell.t = "s" => Len(Strip(cell.v)) > 0)
+   \/ /\ cls.cls = "formula" /\ cell.t = "s" /\ FormulaWF(Strip(cell.v))
+   \/ /\ cls.cls = "statmech" /\ cell.t = "s" /\ Lower(Strip(cell.v)) \in PresetNames
+   \/ /\ cls.cls = "mode" /\ cell.t = "s" /\ ModelKnown(cls.a, Strip(cell.v))
 SheetInQuantifier(sheet) ==
-   LET hs == sheet.headers  cl == DocClasses(hs)  n == Len(hs)
+   LET hs == sheet.headers  cl == DocClassesD(hs, sheet.opt.delim)  n == Len(hs)
        Cnt(k) == Cardinality({c \in 1..n : cl[c].cls = k})
        ordK == {cl[c].a : c \in {d \in 1..n : cl[d].cls = "ordinary"}}
        listK == {cl[c].a : c \in {d \in 1..n : cl[d].cls = "list"}}
        dictK == {cl[c].a : c \in {d \in 1..n : cl[d].cls = "dict"}}
        \* headers that may repeat with identical text: vib_wavenumber, rot_temperature, list.name
-       Repeatable(c) == cl[c].cls \in {"vib", "rot"} \/ (cl[c].cls = "list" /\ Len(Pieces(Trim(hs[c]))) = 2)
-   IN /\ n >= 1 /\ Len(sheet.rows) >= 1
+       Repeatable(c) == cl[c].cls \in {"vib", "rot", "unnamed"} \/ (cl[c].cls = "list" /\ Len(Pieces(Strip(hs[c]))) = 2)
+   IN /\ n >= 1                                \* (a sheet may have no data row at all: [] is required)
       /\ \A c \in 1..n : cl[c].cls # "outside"
       /\ \A c \in 1..n, d \in 1..n :
             c < d =>
-              /\ hs[c] = hs[d] => Repeatable(c) /\ hs[c] = Trim(hs[c])
-              /\ hs[c] # hs[d] /\ cl[c] = cl[d] => cl[c].cls \in {"list", "vib", "rot"}
+              /\ hs[c] = hs[d] => Repeatable(c) /\ hs[c] = Strip(hs[c])
+              /\ hs[c] # hs[d] /\ cl[c] = cl[d] => cl[c].cls \in {"list", "vib", "rot", "unnamed"}
               /\ cl[c].cls = "list" /\ cl[c] = cl[d] =>
-                    Len(Pieces(Trim(hs[c]))) = Len(Pieces(Trim(hs[d])))
+                    Len(Pieces(Strip(hs[c]))) = Len(Pieces(Strip(hs[d])))
       /\ ordK \cap (listK \cup dictK \cup ReservedKeys) = {}
       /\ listK \cap dictK = {} /\ (listK \cup dictK) \cap (ReservedKeys \cup {T_n_degrees}) = {}
-      /\ Cnt("formula") <= 1 /\ Cnt("statmech") <= 1
+      /\ Cnt("formula") <= 1 /\ Cnt("statmech") <= 1 /\ Cnt("atoms") <= 1 /\ Cnt("outcar") <= 1
+      /\ ordK \cap {T_atoms} = {} /\ Functional(sheet.opt.files)
       /\ \A r \in 1..Len(sheet.rows) :
             /\ Len(sheet.rows[r]) = n
-            /\ \A c \in 1..n : CellSuits(cl[c], sheet.rows[r][c])
-      /\ \E c \in 1..n : ~IsEmpty(sheet.rows[Len(sheet.rows)][c])
+            /\ \A c \in 1..n : CellSuits(cl[c], sheet.rows[r][c], sheet.opt)
+      /\ Len(sheet.rows) > 0 => \E c \in 1..n : ~IsEmpty(sheet.rows[Len(sheet.rows)][c])
 
 \* ------------------------------------------------------------------ atoms (for leak detection)
 RowAtoms(row) == {Scalar(row[k]) : k \in {j \in 1..Len(row) : ~IsEmpty(row[j])}}
-ValueAtoms(v) == IF v.t \in {"n", "s"} THEN {v}
+ValueAtoms(v) == IF v.t \in {"n", "s", "t", "a"} THEN {v}
                  ELSE IF v.t \in {"l", "v"} THEN {v.v[k] : k \in 1..Len(v.v)}
                  ELSE IF v.t = "d" THEN {p[2] : p \in v.v}
                  ELSE {}
 RecAtoms(rc) == UNION {ValueAtoms(p[2]) : p \in rc}
 \* atoms that no cell of the row holds but the documented folding creates
+DerivedO(cls, row, opt) ==
+   {ZeroN, Num(DecOfInt(3))}
+   \cup UNION {{p[2] : p \in FormulaPairs(Strip(row[k].v))} :
+                 k \in {j \in 1..Len(row) : cls[j].cls = "formula" /\ ~IsEmpty(row[j])}}
+   \cup UNION {{AtomsV(AtomsStem(Strip(row[k].v)))} :
+                 k \in {j \in 1..Len(row) : cls[j].cls = "atoms" /\ ~IsEmpty(row[j])}}
+   \cup UNION {LET l == OutcarList(opt, Strip(row[k].v)) IN {l[i] : i \in 1..Len(l)} :
+                 k \in {j \in 1..Len(row) : cls[j].cls = "outcar" /\ ~IsEmpty(row[j])}}
 Derived(cls, row) == {ZeroN, Num(DecOfInt(3))}
-                    \cup UNION {{p[2] : p \in FormulaPairs(Trim(row[k].v))} :
+                    \cup UNION {{p[2] : p \in FormulaPairs(Strip(row[k].v))} :
                                   k \in {j \in 1..Len(row) : cls[j].cls = "formula" /\ ~IsEmpty(row[j])}}
 =============================================================================
